@@ -389,10 +389,15 @@ func e2eChild(c *vkit.Ctx) {
 		names = append(names, v.Name)
 		c.Event("e2e_reload:"+v.Name, 1)
 	}
+	fs, info := e2e.JudgeAtLeastOnce(obs)
+	if exp := e2e.SafetyExpired(obs); len(exp) > 0 && (len(fs) > 0 || planErr != "") {
+		// the agent gave something up after one of its (scaled-down) safety timeouts expired: environment stall, run set aside
+		c.Inconclusive(fmt.Sprintf("e2e %d: set aside, the agent reported an expired safety timeout: %s", idx, strings.Join(exp, " | ")))
+		return
+	}
 	if planErr != "" {
 		c.Violation("e2e:reload-outcome", planErr, map[string]any{"plan": names, "scenario_family": fam})
 	}
-	fs, info := e2e.JudgeAtLeastOnce(obs)
 	for k, v := range info {
 		c.Event("e2e_"+k, v)
 	}
